@@ -196,7 +196,8 @@ def signs(rep, prog, interps):
     else:
         (cd, fd, ad, kd), (co, fo, ao, ko) = yt['diag'], yt['off']
         Lr, Lc = yt['off:labels']
-        okd = cd == 1 and fd == 'admittance_connected_to' and len(ad) == 2 and not kd and ad[1] in (tkey(Lr), tkey(Lc))
+        Ldr, Ldc = yt.get('diag:labels', (Lr, Lc))          # (the diagonal may be written by a loop of its own)
+        okd = cd == 1 and fd == 'admittance_connected_to' and len(ad) == 2 and not kd and ad[1] in (tkey(Lr), tkey(Lc), tkey(Ldr), tkey(Ldc))
         oko = co == -1 and fo == 'admittance_between' and len(ao) == 3 and not ko and {repr(ao[1]), repr(ao[2])} == {repr(tkey(Lr)), repr(tkey(Lc))}
         rep.ob('R01.sign', 'Y:diag/offdiag', bool(okd and oko), f'row == column: {cd}·{fd}(net, row) ; else {co}·{fo}(net, row, column)', yt['site'])
         want = tkey(yt['spec_network'])
